@@ -10,7 +10,7 @@ register(Harness("c06_sweep", "C06", lambda P: reharness.make_sweep(P, oracles.c
                  goals=["paused", "resumed", "suspended", "interrupted"], functions=_fns, mode="schedule", symbolic=SYM, out_of_bound=OUT + "; devices staged more than once per call",
                  stubs=STUBS, require_exhaustive=True))
 register(Harness("c06_faults", "C06", lambda P: reharness.make_sweep(P, oracles.c06_cleanup, plans=["staged_monitor", "flymon", "scan2", "double_stage", "status_stage"] if P["tier"] == "quick" else PLANS_T + ["double_stage"],
-                                                                       kinds=["pause"] if P["tier"] == "quick" else ["pause", "suspend", "halt"],
+                                                                       kinds=["pause"] if P["tier"] == "quick" else ["pause", "suspend"],
                                                                        decisions=["resume"], faults=True),
                  {"quick": dict(shards=16, budget_s=300, per_path_s=30), "thorough": dict(shards=64, budget_s=3000, per_path_s=30)},
                  goals=["device-failure-surfaced", "paused"], functions=_fns, mode="schedule",
